@@ -148,6 +148,11 @@ Proof. vm_compute. reflexivity. Qed.
 Example c01_empty_key_refuted :
   fst (h_set 0 empty_db [FBulk (bs "SET"); FBulk []; FBulk (bs "v")]) = r_err.
 Proof. vm_compute. reflexivity. Qed.
+(** MSET is failure-atomic too since 974d7d6 (every pair is validated before the first is stored) *)
+Theorem c01_mset_refused_changes_nothing :
+  forall now d parts r d', h_mset now d parts = (r, d') -> is_error r = true -> d' = d.
+Proof. exact h_mset_atomic. Qed.
+
 (** ---- former findings, repaired (974d7d6, 1a8fa0e, f4c6282, 48bcb4d): regression examples ---- *)
 Example c01_mset_atomic :
   h_mset 0 empty_db [FBulk (bs "MSET"); FBulk (bs "a"); FBulk (bs "1"); FBulk (bs "b"); FInt 5] = (r_err, empty_db).
